@@ -286,6 +286,17 @@ pub fn normalize_text(s: &str, scratch: &str) -> String {
     out
 }
 
+/// the plain-release build of the same tree, if ./check built it (…/sut-plain/release/rusty-blockparser)
+pub fn plain_sut(sut: &Path) -> Option<PathBuf> {
+    let s = sut.to_string_lossy().replace("/sut/release/", "/sut-plain/release/");
+    let p = PathBuf::from(s);
+    if p != sut && p.is_file() {
+        Some(p)
+    } else {
+        None
+    }
+}
+
 pub const ABORTED: &str = "exploration aborted after a run hit the wall-clock cap";
 
 pub struct Harness<'a> {
@@ -304,6 +315,13 @@ impl<'a> Harness<'a> {
     /// Build the model, execute, judge, account. Returns outcomes for follow-up scenarios.
     pub fn check(&mut self, scn: &mut Scenario) -> Result<(Vec<RunOutcome>, bool), String> {
         scn.seed = self.seed;
+        if self.item % 4 == 3 && self.prop.id() != "C14" && self.ctx.sut_plain.is_some() {
+            // configuration dimension: the same scenario stream also exercises the plain release build
+            for r in scn.runs.iter_mut() {
+                r.plain_build = true;
+            }
+            self.stats.probe("plain_release_build_run");
+        }
         scn.index_no = self.item * 1_000_000 + self.sub;
         self.sub += 1;
         if self.ctx.abort.load(Ordering::Relaxed) {
@@ -377,7 +395,10 @@ impl<'a> Harness<'a> {
                         t.push_str(&format!("close-burst {}\n", burst.join(",")));
                         burst.clear();
                     }
-                    if hash_ordered {
+                    if hash_ordered && e.op == "crash" {
+                        // the kill line of a write quotes the size of that (row-order dependent) write
+                        t.push_str("crash");
+                    } else if hash_ordered {
                         // sequence numbers shift with the number of write events
                         t.push_str(e.raw.splitn(2, ' ').nth(1).unwrap_or(""));
                     } else {
@@ -461,6 +482,7 @@ pub fn run_check(prop: &dyn Prop, env: &CheckEnv) -> i32 {
     println!("VERIF_SEED={} property={} tier={:?} workers={}", env.seed, prop.id(), env.tier, env.workers);
     let ctx = ExecCtx {
         sut: env.sut.clone(),
+        sut_plain: plain_sut(&env.sut),
         scratch: env.scratch.clone(),
         timeout: Duration::from_secs(prop.run_cap_secs(env.tier)),
         runs_done: AtomicU64::new(0),
@@ -709,6 +731,7 @@ pub fn run_check(prop: &dyn Prop, env: &CheckEnv) -> i32 {
 pub fn replay(prop: &dyn Prop, sut: &Path, scratch: &Path, scn: &Scenario) -> i32 {
     let ctx = ExecCtx {
         sut: sut.to_path_buf(),
+        sut_plain: plain_sut(sut),
         scratch: scratch.to_path_buf(),
         timeout: Duration::from_secs(240),
         runs_done: AtomicU64::new(0),
